@@ -252,7 +252,8 @@ def parse_xml(err_text, addon, files=("t.c",)):
     res, others = {f: [] for f in files}, []
     for e in root.iter("error"):
         i = e.get("id")
-        if not (i.startswith(addon + "-") or i == "internalError"):
+        # (the id is built from the "addon" MEMBER of the line: the generator's type damage can set it to "str")
+        if not (i.startswith(addon + "-") or i.startswith("str-") or i == "internalError"):
             if i != "checkersReport":
                 others.append(i)
             continue
@@ -631,6 +632,8 @@ def run(ctx, res):
         b = summary_eval(ctx, res, drv, r, k)
         if b is not None:
             bad_s.append(b)
+    for b in bad_s[:2]:
+        res.violation("ctu-info seen by the whole-program phase differs from the model: %s" % "; ".join(b["problems"])[:300], dict(addons=b["addons"], builddir=b["builddir"]), concrete=True, key=None)
     res.oblig("correspondence:summaries-forwarded", not bad_s, "correspondence",
               "" if not bad_s else "%d of %d multi-addon runs: ctu-info seen by the whole-program phase differs from the model; first: %s" % (len(bad_s), nsum, json.dumps(bad_s[0])[:1200]))
     # whole-program phase: ill-typed output of a ctu addon must not terminate the process (fixed by 9260697)
